@@ -131,8 +131,15 @@ def table(P, D):
     return {"os": osm, "filepath": fpm, "fmt": fmtm, "globals": glob, "file": filem}
 
 
-CONTEXTS = ["top", "spawn", "spawn2", "clone", "hostcall", "apicall", "withvm", "clone2", "import", "import_top", "callback", "spawn_import"]
-QUICK_CONTEXTS = ["top", "spawn", "clone", "apicall", "withvm", "import", "import_top", "callback"]
+CONTEXTS = ["top", "spawn", "spawn2", "clone", "hostcall", "apicall", "withvm", "clone2", "import", "import_top", "callback", "spawn_import",
+            "nest", "nest2", "nest_spawn", "nest_import", "nest_inherit"]
+QUICK_CONTEXTS = ["top", "spawn", "clone", "apicall", "withvm", "import", "import_top", "callback", "nest", "nest_spawn"]
+NEST_OS = 2       # the OS the host builtin places on the context of a nested evaluation
+
+
+def nest_call(program, layer, withos=0):
+    """script text: the host builtin c12nest evaluates `program` on the context it is called with, layered with OS `layer`"""
+    return "c12nest(%s, %d, %d)" % (json.dumps(program, ensure_ascii=False), layer, withos)
 
 
 def fn_body(setup, call):
@@ -170,6 +177,18 @@ def render_ctx(ctxname, setup, call):
         return "[0].map(func(x) {\n%s\n})[0]" % body, {}, []
     if ctxname == "spawn_import":
         return "t := spawn(func() {\nimport c12m\nreturn c12m.f()\n})\nt.wait()", {"c12m": "func f() {\n%s\n}" % body}, []
+    # nested evaluations: a host builtin, called by the (outer) script, evaluates the program under an OS of its own that it
+    # places on the context it received (which already carries the outer evaluation's OS)
+    if ctxname == "nest":
+        return nest_call(top, NEST_OS), {}, []
+    if ctxname == "nest2":          # a nested evaluation inside a nested evaluation (the middle one under OS 3)
+        return nest_call(nest_call(top, NEST_OS), 3), {}, []
+    if ctxname == "nest_spawn":     # the nested script starts a thread
+        return nest_call("t := spawn(func() {\n%s\n})\nt.wait()" % body, NEST_OS), {}, []
+    if ctxname == "nest_import":    # the nested script imports a module
+        return nest_call("import c12m\nc12m.f()", NEST_OS), {"c12m": "func f() {\n%s\n}" % body}, []
+    if ctxname == "nest_inherit":   # no OS of its own: the nested evaluation inherits the context's OS (a WithOS option loses)
+        return nest_call(top, 0, 3), {}, []
     raise ValueError(ctxname)
 
 
@@ -185,12 +204,26 @@ def gen_builtin_cases(listing, tbl, tier, rng, tag="b", groups=("os", "filepath"
                 continue
             setup, call, expect = spec
             for ctxname in ctxs:
-                for supply in ("withos", "ctx") + (("both",) if tier == "thorough" else ()):
+                if ctxname.startswith("nest"):
+                    supplies = ("over-withos", "over-ctx") + (("over-default",) if ctxname != "nest_inherit" else ())
+                else:
+                    supplies = ("withos", "ctx", "layered") + (("both", "layered-both") if tier == "thorough" else ())
+                for supply in supplies:
                     main, mods, host = render_ctx(ctxname, setup, call)
                     if supply == "withos":
                         withos, cid, want = 1, 0, 1
                     elif supply == "ctx":
                         withos, cid, want = 0, 2, 2
+                    elif supply == "layered":        # a per-request OS placed over a base context that has an OS already
+                        withos, cid, want = 0, 12, 2
+                    elif supply == "layered-both":
+                        withos, cid, want = 3, 31, 1
+                    elif supply == "over-withos":    # the OUTER evaluation's OS; the nested one runs under NEST_OS
+                        withos, cid, want = 1, 0, (1 if ctxname == "nest_inherit" else NEST_OS)
+                    elif supply == "over-ctx":
+                        withos, cid, want = 0, 1, (1 if ctxname == "nest_inherit" else NEST_OS)
+                    elif supply == "over-default":   # the outer evaluation runs under the default (real) OS
+                        withos, cid, want = 0, 0, NEST_OS
                     else:
                         withos, cid, want = 3, 3, 3
                     k += 1
@@ -222,7 +255,11 @@ def render_script(script):
     """Script-level steps, chronological; the last one is innermost. -> (expression, imports of the unit, modules)"""
     expr, imports, modules = 'getenv("WHO")', [], {}
     for j, s in reversed(list(enumerate(script))):
-        if s == "S":
+        if s.startswith("N"):   # N:<layer>:<withos> - a host builtin starts a nested evaluation of everything inside
+            _, layer, wo = s.split(":")
+            expr = nest_call("".join("import %s\n" % m for m in imports) + expr, int(layer), int(wo))
+            imports = []
+        elif s == "S":
             expr = "spawn(func() { return %s }).wait()" % expr
         elif s == "B":      # a builtin spawned directly (only as the innermost step)
             expr = 'spawn(getenv, "WHO").wait()' if j % 2 else 'getenv.spawn("WHO").wait()'
@@ -240,24 +277,38 @@ def render_script(script):
 MODEL_TOK = {"S": "S", "B": "S", "G": "S", "F": "F", "I": "I"}
 
 
+def model_tok(x):
+    return "N %s %s" % tuple(x.split(":")[1:]) if x.startswith("N") else MODEL_TOK[x]
+
+
+def ctx_os(c):
+    """the OS a host context carries: the one placed last (decimal digits = layers, 0 = none)"""
+    ds = [int(ch) for ch in str(c) if ch != "0"]
+    return ds[-1] if ds else 0
+
+
 def gen_derivations(rng, n):
     """Random derivations of execution contexts; the probe is getenv("WHO")."""
     cases = []
     for i in range(n):
         vm_os = rng.choice([0, 1, 1, 2])
-        ctx0 = rng.choice([0, 0, 1, 2, 3])
+        ctx0 = rng.choice([0, 0, 1, 2, 3, 12, 21, 31, 123])
         if i % 3 == 0:      # mostly derivations where the host does supply one OS
             o = rng.choice([1, 2])
-            vm_os, ctx0 = rng.choice([(o, 0), (0, o), (o, o)])
+            other = 3 - o
+            vm_os, ctx0 = rng.choice([(o, 0), (0, o), (o, o), (0, other * 10 + o), (other, 30 + o)])
         host = []
         for _ in range(rng.below(4)):
             kind = rng.choice(["hostcall", "hostclone"])
             if i % 3 == 0:
-                c = rng.choice([o] + ([0] if vm_os == o else []))
+                c = rng.choice([o, other * 10 + o] + ([0] if vm_os == o else []))
             else:
-                c = rng.choice([0, 0, 1, 2, 3])
+                c = rng.choice([0, 0, 1, 2, 3, 13, 32])
             host.append((kind, c))
         script = [rng.choice(["S", "I", "F", "G"]) for _ in range(rng.below(5))]
+        # nested evaluations started by a host builtin, anywhere among the script-level steps, to any depth
+        for _ in range(rng.choice([0, 0, 1, 1, 2, 3])):
+            script.insert(rng.below(len(script) + 1), "N:%d:%d" % (rng.choice([0, 1, 2, 3, 3, 2]), rng.choice([0, 0, 1, 2])))
         if rng.chance(1, 5):
             script.append("B")
         expr, imports, modules = render_script(script)
@@ -269,7 +320,7 @@ def gen_derivations(rng, n):
         toks = ["T", str(vm_os), str(ctx0)]
         for kind, c in host:
             toks += ["HC" if kind == "hostcall" else "HL", str(c)]
-        toks += [MODEL_TOK[x] for x in script]
+        toks += [model_tok(x) for x in script]
         cid = "p%d" % i
         cases.append({"id": cid, "kind": "deriv", "deriv": " ".join(toks),
                       "spec": {"id": cid, "main": main, "modules": modules, "withos": vm_os,
@@ -279,21 +330,34 @@ def gen_derivations(rng, n):
 
 def host_supplies(toks):
     """The decidable hypothesis of C12_propagates, evaluated independently of the Coq model: returns o or None."""
-    vm_os, c0 = int(toks[1]), int(toks[2])
+    vm_os, c0 = int(toks[1]), ctx_os(toks[2])
     cands = []
     for o in (1, 2, 3):
         ok = (c0 == o) or (c0 == 0 and vm_os == o)
         i = 3
         while ok and i < len(toks):
             if toks[i] in ("HC", "HL"):
-                c = int(toks[i + 1])
+                c = ctx_os(toks[i + 1])
                 ok = (c == o) or (c == 0 and vm_os == o)
                 i += 2
             else:
                 i += 1
         if ok:
             cands.append(o)
-    return cands[0] if cands else None
+    o = cands[0] if cands else None
+    # nested evaluations: the OS the host builtin placed on the context of the (innermost) nested evaluation is the one the
+    # host supplied for it; a nested evaluation without one inherits whatever the context it derives from was supplied with
+    i = 3
+    while i < len(toks):
+        if toks[i] == "N":
+            if int(toks[i + 1]) != 0:
+                o = int(toks[i + 1])
+            i += 3
+        elif toks[i] in ("HC", "HL"):
+            i += 2
+        else:
+            i += 1
+    return o
 
 
 def observed_os(obs):
@@ -436,7 +500,9 @@ def _body(res, tier, repo, obs, model, cg, proved, work):
         bcases += rel
     dcases = gen_derivations(rng, 300 if tier == "quick" else 6000)
     # corpus: documented fall-backs (witnesses of what the hypothesis excludes)
-    corpus = [("T 1 2", "ctx-wins"), ("T 0 2 HL 0", "bare-clone-falls-back"), ("T 1 0 HL 0 S I F", "withos-everywhere")]
+    corpus = [("T 1 2", "ctx-wins"), ("T 0 2 HL 0", "bare-clone-falls-back"), ("T 1 0 HL 0 S I F", "withos-everywhere"),
+              ("T 0 12", "layered-context"), ("T 1 0 N:2:0", "nested-own-os"), ("T 0 0 N:2:0 S", "nested-over-default"),
+              ("T 1 0 I N:2:0 N:3:1 F", "nested-twice"), ("T 1 0 N:0:2", "nested-inherits")]
     for toks, name in corpus:
         t = toks.split()
         host = []
@@ -445,6 +511,7 @@ def _body(res, tier, repo, obs, model, cg, proved, work):
             host.append(("hostcall" if t[i] == "HC" else "hostclone", int(t[i + 1])))
             i += 2
         script = t[i:]
+        toks = " ".join(t[:i] + [model_tok(x) for x in script])
         expr, imports, modules = render_script(script)
         pre = "".join("import %s\n" % m for m in imports)
         main = pre + ("func target() {\nreturn %s\n}" % expr if host else expr)
@@ -505,7 +572,9 @@ def _body(res, tier, repo, obs, model, cg, proved, work):
         log = g.get("log") or []
         if c["kind"] == "virtual":
             per_ctx["virtualos"] = per_ctx.get("virtualos", 0) + 1
-            txt = (g.get("result") or "") + " " + (g.get("err") or "")
+            # (the scripts name files of the harness's own work directory; when the framework lives under the user's home
+            # directory that path contains the home directory and the user name: it is the script's text, not an answer)
+            txt = ((g.get("result") or "") + " " + (g.get("err") or "")).replace(work, "<WORKDIR>")
             for what, fact in host_facts.items():
                 if fact and len(fact) > 2 and fact in txt and not (fact in c["spec"]["main"]):
                     why.append("under a VirtualOS the call %s answered with %s (%s): %s" % (c["builtin"], what, fact, txt[:160]))
@@ -551,7 +620,8 @@ def _body(res, tier, repo, obs, model, cg, proved, work):
             if o is not None:
                 nontrivial.add(("deriv", c["deriv"]))
                 if seen != o:
-                    why.append("host supplied OS %d for every step of [%s] but the probe was served by %s" % (
+                    why.append("the host supplied OS %d for the evaluation that runs the probe (every host step of [%s]; for a nested "
+                               "evaluation N <layer> <withos>: the OS its host builtin placed on the context) but the probe was served by %s" % (
                         o, c["deriv"], "the REAL OS" if seen == 0 else "OS %d" % seen))
             # ---- CORRESPONDENCE: effective_os of the model
             if pred.get(c["id"]) != seen:
@@ -571,8 +641,11 @@ def _body(res, tier, repo, obs, model, cg, proved, work):
     cov["rule"] = ("every member of the os, filepath and fmt modules of the running packages, every OS-facing global builtin and "
                    "every file object method (%d builtins, enumerated at run time), each called from %s with a recording OS supplied "
                    "by risor.WithOS and, separately, placed in the context; plus %d random derivations of execution contexts "
-                   "(host calls / clones with arbitrary contexts, spawn, import, callback, nested to depth 7) probed with "
-                   "getenv. After every case the real sentinel file, directory, environment, working directory and standard "
+                   "(host calls / clones with arbitrary contexts - also LAYERED ones, an OS placed over a context that carries "
+                   "another -, spawn, import, callback, and NESTED evaluations started by a host builtin on the context it "
+                   "received with an OS of its own placed on it, nested to depth 7) probed with getenv; the builtin cases "
+                   "include the nested contexts (outer evaluation under WithOS / a context OS / the default OS) and the layered "
+                   "supply. After every case the real sentinel file, directory, environment, working directory and standard "
                    "streams are compared. Non-trivial = distinct (OS-touching builtin, context, supply) triples and distinct "
                    "derivations in which the host supplies one OS throughout." % (
                        sum(len(v) for v in listing.values()), "/".join(sorted(per_ctx)), len(dcases)))
